@@ -9,8 +9,11 @@
                                   step loop with window reuse and ReduceDelta     -> range_loop
                                   vectorSelectorSingle                            -> vss
                                   evalSeries (the per-series step loop)           -> sel_loop
-                                  subqueryTimeRange                               -> sub_grid
-                                  PreprocessExpr / preprocessExprHelper           -> preprocess
+                                  subqueryTimeRange                               -> sub_start, num_steps
+                                  PreprocessExpr / preprocessExprHelper (tree as of
+                                  "fix: promql: aggregation parameters are not
+                                  preprocessed": an aggregation with a parameter is a
+                                  two-argument node)                               -> preprocess
                                   eval (expression layer, dense per-step form)    -> eval_range
    and the direct ("fresh at every step") semantics  window_spec / select_spec / eval_instant.
 
